@@ -593,6 +593,12 @@ func (cc *ClusterContext) removePartition(partitionName string) {
 // addNode adds a new node to the cluster enforcing just one unlimited node in the cluster.
 // nil nodeInfo objects must be filtered out before calling this function
 func (cc *ClusterContext) addNode(nodeInfo *si.NodeInfo, schedulable bool) error {
+	// a node without an ID cannot be told apart from "no node": every request without a node would be treated as
+	// already placed on it
+	if nodeInfo.NodeID == "" {
+		metrics.GetSchedulerMetrics().IncFailedNodes()
+		return errors.New("failure while adding new node, node rejected with error: node ID is empty")
+	}
 	sn := objects.NewNode(nodeInfo)
 	sn.SetSchedulable(schedulable)
 
